@@ -272,7 +272,7 @@ func (g *G) opt(tag string, f func() Frag) Frag {
 
 // ---- identifiers ----
 
-var plainNames = []string{"a", "b", "c", "t1", "_x", "Col_2", "tbl", "x", "y", "Singers", "SingerId", "n", "v1", "Albums", "z9", "T", "fld", "e"}
+var plainNames = []string{"a", "b", "c", "t1", "_x", "Col_2", "tbl", "x", "y", "Singers", "SingerId", "n", "v1", "Albums", "z9", "T", "fld", "e", "e5", "E10"} // (e5 / E10: exponent-shaped, glue with a preceding "1." into a float)
 
 var reservedList = func() []string {
 	l := reflex.ReservedWords()
